@@ -114,6 +114,19 @@ def dstep (d : D) (op impl : String) : D × String × Verdict :=
       let m := e ++ s!" mem={dumpM false d.st.mem} disk={diskS} bytes=ok"
       if propertyOK d d.everUnloaded impl then (remember d, m, .unknown)
       else (remember d, "memory and a freshly started service must agree; model: " ++ m, .fail)
+  | ["restart"] =>
+      -- the service under test is replaced by a freshly started one on the same directory: its memory is what the
+      -- directory holds (temporary wallets are gone, unloaded files are loaded again), its fingerprint index is rebuilt
+      -- from those wallets; a directory it refuses leaves the running service in place
+      let (s', e) : St × String := match loadAll d.st.disk with
+        | some m => ({ mem := m, disk := d.st.disk, fps := m.filterMap (fun p => p.2.fp.map (fun f => (f, p.1))), unloaded := [] }, "ok")
+        | none => (d.st, "err other")
+      let diskS := match loadAll s'.disk with | some m => dumpM true m | none => "ERR"
+      let m := e ++ s!" mem={dumpM false s'.mem} disk={diskS} bytes=ok"
+      let d' := remember { d with st := s' }
+      let pd : D := if e == "ok" then { d with prevMem := field "mem=" iw, prevDisk := field "disk=" iw } else d
+      if propertyOK pd d.everUnloaded impl then (d', m, .unknown)
+      else (d', "memory and a freshly started service must agree; model of the current source: " ++ m, .fail)
   | _ =>
     match parseOp ws with
     | none => (d, "bad-op", .unknown)
